@@ -21,6 +21,9 @@ EXPLANATION += (
 EXPLANATION += (  # round-3 supplement
     ' N5 is path-based: every path to a returned Some passes a validating edge (successful lookup, per-unit loop, comparison with a length, or index == 0).'
 )
+EXPLANATION += (
+    ' N1 also reports a method that neither delegates to the operation of its name nor is a reviewed hand-written body. N6 only the push methods of StringBuf obtain mutable access to the shared buffer.'
+)
 ASSUMPTIONS = [
     "Rust std / inetnum methods implement their documented meaning (trusted); only the binding of names to those methods is decided",
 ]
@@ -396,7 +399,34 @@ def rule_n5(F):
     return r
 
 
+def rule_n6(F):
+    """'StringBuf accumulates what was pushed': the buffer behind every handle of a StringBuf only grows.  Who may write it: the
+    push methods.  Every other method of the type (as_string, ==, clone, the constructors) touches the locked String through a
+    shared reference only - no DerefMut on the guard, no mem::take / replace / swap (which would empty the buffer for every alias:
+    the script's own variable is one of them)."""
+    r = RuleResult("C17.N6", "StringBuf: only the push methods obtain mutable access to the shared buffer; readers leave it as it is", floor=4)
+    bodies = [b for b in F.bodies_in(["src/value/string_buf.rs"]) if b.mir and "::tests::" not in b.path]
+    pushes = 0
+    for b in bodies:
+        name = hir.last(b.path.split("::{closure")[0])
+        writes = []
+        for bi, t in mir.calls(b):
+            d = mir.callee_def(t) or ""
+            if d.endswith("DerefMut::deref_mut") or d in ("std::mem::take", "std::mem::replace", "std::mem::swap") or hir.last(d) in ("get_mut", "clear", "truncate", "drain"):
+                writes.append((hir.last(d), t.get("line")))
+        writer = name.startswith("push")
+        pushes += 1 if (writer and writes) else 0
+        r.inst("StringBuf::%s" % name, {"fn": b.path, "mutable_access": [w[0] for w in writes], "is_push_method": writer})
+        if writes and not writer:
+            r.bad(b.path, "mutable access to the buffer outside push", relfile(b.file), writes[0][1] or b.line,
+                  "%s obtains mutable access to the shared buffer (%s): a reader that moves the contents out empties the buffer for every handle of it, including the script's own "
+                  "variable (`b.as_string()` twice gives \"..\" then \"\")" % (name, ", ".join(w[0] for w in writes)))
+    if pushes < 1:
+        r.missing("the push methods of StringBuf")
+    return r
+
+
 def rules(ctx):
     F = ctx["F"]
     regs = registrations(F)
-    return [rule_n1(F, regs), rule_n2(F), rule_n3(F, regs), rule_n4(F, regs), rule_n5(F)]
+    return [rule_n1(F, regs), rule_n2(F), rule_n3(F, regs), rule_n4(F, regs), rule_n5(F), rule_n6(F)]
